@@ -165,6 +165,10 @@ def r04_3(prog: Program, rep):
         hs = [t.handlers[0]]
     h = hs[0]
     removed = {norm(c.args[0]) for c in ast.walk(h) if isinstance(c, ast.Call) and dotted(c.func) in ("os.remove", "os.unlink") and c.args}
+    # `for p in (a, b): os.remove(p)` removes a and b
+    for lp in ast.walk(h):
+        if isinstance(lp, ast.For) and isinstance(lp.target, ast.Name) and isinstance(lp.iter, (ast.Tuple, ast.List)) and lp.target.id in removed:
+            removed |= {norm(e) for e in lp.iter.elts}
     # files created before the try: rename target, GitFile target, bitmap path
     created = set()
     for s in ast.walk(cp.node):
